@@ -118,6 +118,7 @@ Proof. intros h z. unfold h_contains. noub. Qed.
 
 Lemma h_get_or_default_no_ub : forall (h : heap V) z d, no_ub (h_get_or_default h z d).
 Proof. intros h z d. unfold h_get_or_default. noub. Qed.
+Hint Resolve h_contains_no_ub h_get_or_default_no_ub : noub.
 
 Lemma h_first_no_ub : forall fuel (h : heap V) r, no_ub (h_first fuel h r).
 Proof. induction fuel as [|f IH]; intros h r; cbn [h_first]; noub. Qed.
@@ -137,6 +138,7 @@ Hint Resolve len_no_ub : noub.
 
 Lemma is_empty_no_ub : forall (h : heap V), no_ub (is_empty h).
 Proof. intros h. unfold is_empty. noub. Qed.
+Hint Resolve is_empty_no_ub : noub.
 
 Lemma h_leaf_count_no_ub : forall fuel (h : heap V) r, no_ub (h_leaf_count fuel h r).
 Proof. induction fuel as [|f IH]; intros h r; cbn [h_leaf_count]; noub. Qed.
